@@ -113,8 +113,9 @@ Definition prep_next (st : pstate) (raw : list rtok) : TokenKind * N * pstate * 
       | _ => (T_Error, len, set_perr st2 PEDefineName, r2)
       end
   | T_Eof =>
-      if 0 <? openc st1 then (T_Error, 0, set_perr (set_openc st1 0) PEUnterminated, r1)
-      else (T_Eof, 0, st1, r1)
+      (* the length of every delivered token is the length of what was eaten (0 for the lexer's Eof) *)
+      if 0 <? openc st1 then (T_Error, rlen t, set_perr (set_openc st1 0) PEUnterminated, r1)
+      else (T_Eof, rlen t, st1, r1)
   | k => (k, rlen t, st1, r1)
   end.
 
